@@ -357,6 +357,10 @@ fn draw(s: &mut Snap, text: &str, notes: &mut Notes) {
             }
         };
         let class = class_of(ch);
+        if class == Class::Odd {
+            notes.unknown = true;
+            return;
+        }
         let w: u32 = match class {
             Class::Narrow => 1,
             Class::Wide => 2,
@@ -402,10 +406,10 @@ fn draw(s: &mut Snap, text: &str, notes: &mut Notes) {
                 if let Some((ty, tx)) = target {
                     let mut d = s.cells[ty][tx].data.to_string();
                     d.push(ch);
-                    s.cells[ty][tx].data = d.nfc().collect::<String>().into();
+                    s.cells[ty][tx].data = canonical(&d);
                 }
             }
-            Class::ZeroOther | Class::Unprintable => {
+            Class::ZeroOther | Class::Unprintable | Class::Odd => {
                 notes.tag("noeffect-char");
             }
         }
